@@ -1,12 +1,12 @@
 #!/usr/bin/env python3
-"""Composes /verif/seeded/<id>/meta.json from the sub-agent's own notes, my confirmation run and the
-seed matrix (which quick checks fire on the change)."""
-import json, os, glob, csv
+"""Composes /verif/seeded/<id>/meta.json (from the sub-agent's notes, my confirmation run and the recorded
+results in seeded/results.py) and prints the DESIGN.md table of §9.2."""
+import json, os, glob, sys, importlib.util
 S = '/verif/seeded'
-matrix = {}
-if os.path.exists(S + '/matrix.tsv'):
-    for row in csv.DictReader(open(S + '/matrix.tsv'), delimiter='\t'):
-        matrix.setdefault(row['seed'], {})[row['check']] = (row['exit'], row['violations'])
+spec = importlib.util.spec_from_file_location("results", S + "/results.py")
+mod = importlib.util.module_from_spec(spec); spec.loader.exec_module(mod)
+R = mod.R
+rows = []
 for d in sorted(glob.glob(S + '/C*-*')):
     sid = os.path.basename(d)
     am = {}
@@ -16,20 +16,18 @@ for d in sorted(glob.glob(S + '/C*-*')):
         except Exception:
             am = {}
     conf = json.load(open(d + '/confirm.json')) if os.path.exists(d + '/confirm.json') else {}
-    m = matrix.get(sid, {})
-    caught = sorted(c for c, (e, n) in m.items() if e == '1')
-    silent = sorted(c for c, (e, n) in m.items() if e == '0')
-    other = {c: e for c, (e, n) in m.items() if e not in ('0', '1')}
-    prop = sid.split('-')[0]
+    r = R.get(sid, {})
+    rnd = 2 if sid[-1] in 'CD' else 1
     meta = {
         "id": sid,
-        "property": prop,
-        "author": "independent sub-agent given only the property text and a scratch worktree (round %s)" % ('2' if sid.endswith(('C', 'D')) else '1'),
+        "property": r.get("own", sid.split('-')[0]),
+        "author": "independent sub-agent given only the property text%s and a scratch worktree (round %d)" % (
+            " plus one-sentence summaries of the two round-1 changes (to avoid duplicates)" if rnd == 2 else "", rnd),
         "summary": am.get("summary"),
         "needs_to_manifest": am.get("needs_to_manifest"),
         "example_failing_input": am.get("example_failing_input"),
         "files_touched": am.get("files_touched"),
-        "rebased": os.path.exists(d + '/patch.original.diff'),
+        "rebased_by_me": os.path.exists(d + '/patch.original.diff'),
         "confirmed_by_me": {
             "how": "tools/confirm_seeds.sh in a scratch worktree of /repo HEAD: apply patch, run `cargo test --workspace --offline`, "
                    "run the demo as interpreter/tests/demo_seed.rs with the patch, revert the patch, run the demo again",
@@ -37,11 +35,16 @@ for d in sorted(glob.glob(S + '/C*-*')):
             "demo_exit_with_patch": conf.get("demo_exit_with_patch"),
             "demo_exit_without_patch": conf.get("demo_exit_without_patch"),
         },
-        "checks_run": "tools/seedmatrix.sh: every quick check against a scratch clone of /repo with the patch applied" if m else
-                      "tools/seedtest.sh <patch> %s (quick): fires" % prop,
-        "caught_by_quick_checks": caught if m else [prop],
-        "silent_quick_checks": silent,
-        "inconclusive_quick_checks": other,
+        "what_i_ran": "python3 check.py <Cxx> quick against /repo (tools/seedtest.sh) or a scratch clone (tools/seedtest_alt.sh) with the patch applied, then reverted",
+        "quick_checks_that_fire": r.get("fires", []),
+        "own_check_was_strengthened": r.get("strengthened"),
+        "note": r.get("note"),
     }
     json.dump(meta, open(d + '/meta.json', 'w'), indent=1, ensure_ascii=False)
-print("wrote", len(glob.glob(S + '/C*-*/meta.json')))
+    rows.append((sid, (am.get("summary") or "")[:150].replace("|", "\\|").replace("\n", " "), ", ".join(r.get("fires", [])) or "?", "yes" if r.get("strengthened") else ""))
+if '--table' in sys.argv:
+    print("| Seed | Change (sub-agent's summary, shortened) | Quick checks that fire | Own check strengthened |")
+    print("|---|---|---|---|")
+    for row in rows:
+        print("| %s | %s | %s | %s |" % row)
+print("wrote", len(rows), file=sys.stderr)
